@@ -224,15 +224,12 @@ def r26_sign_prop(ctx):
     if len(rets) == 1 and isinstance(rets[0].value, ast.Tuple) and len(
             rets[0].value.elts) == 2:
         deps = []
-        signdef = [n for n in walk_no_nested(f.node)
-                   if isinstance(n, ast.Assign) and isinstance(
-                       n.targets[0], ast.Name) and isinstance(
-                           n.value, ast.IfExp) and "< 0" in U(n.value.test)
-                   and {U(n.value.body), U(n.value.orelse)} == {"-1", "1"}]
-        sname = signdef[0].targets[0].id if signdef else "sign"
+        from ..flow import sign_variables
+        sv = sign_variables(f.node)
+        sname = sorted(sv)[0] if sv else "sign"
         for e in rets[0].value.elts:
             deps.append(_depends_on(f, e, sname))
-        sign_ok = bool(signdef) and U(signdef[0].value.body) == "-1"
+        sign_ok = bool(sv) and sv[sname][1] is True
         okd = all(deps) and sign_ok
         why = "hours depends on sign: %s, minutes depends on sign: %s" % (
             deps[0], deps[1])
@@ -247,14 +244,16 @@ def r26_sign_prop(ctx):
     rule = "R26.duration-sign"
     f = ctx.func("parsers.DurationParser.parse")
     oke = False
+    from ..flow import sign_by_prefix
     for n in walk_no_nested(f.node):
         if isinstance(n, ast.For) and "items()" in U(n.iter):
             for st in ast.walk(n):
                 if isinstance(st, ast.Assign) and isinstance(
-                        st.targets[0], ast.Subscript) and \
-                        "sign_factor" in U(st.value) and isinstance(
+                        st.targets[0], ast.Subscript) and isinstance(
                             st.value, ast.BinOp) and isinstance(
-                                st.value.op, ast.Mult):
+                                st.value.op, ast.Mult) and (
+                        sign_by_prefix(f.node, st.value.left) or
+                        sign_by_prefix(f.node, st.value.right)):
                     # not under a key-specific condition
                     cond = [a for a in _ifs_between(st, n)]
                     oke = not cond
@@ -490,33 +489,38 @@ def r27_dur_table(ctx):
     if f is None:
         raise AnalysisError("Duration.__str__ not found")
     rep.need_anchor(rule, "duration notations")
-    # writer sequence
-    units = None
-    t_after = None
-    for n in walk_no_nested(f.node):
-        if isinstance(n, ast.For) and isinstance(n.iter, ast.List) and all(
-                isinstance(e, ast.Tuple) and len(e.elts) == 2
-                for e in n.iter.elts):
-            try:
-                units = [tuple(x) for x in ctx.folder.fold(
-                    n.iter, f.module, f.cls, {})]
-            except NotConst:
-                units = None
-            for st in ast.walk(n):
-                if isinstance(st, ast.If) and isinstance(
-                        st.test, ast.Compare) and isinstance(
-                            st.test.comparators[0], ast.Constant) and any(
-                                isinstance(x, ast.AugAssign) and
-                                U(x.value) == "'T'" for x in st.body):
-                    t_after = st.test.comparators[0].value
-    if not units:
+    # writer sequence: the shapes of the strings __str__ can return
+    from .. import strabs
+    shapes = [x for x in strabs.shapes(ctx, f) if isinstance(x, strabs.Str)]
+    other = [x for x in strabs.shapes(ctx, f)
+             if not isinstance(x, strabs.Str)]
+    if other or not shapes:
+        rep.error("R27", "Duration.__str__: a returned value is not a "
+                  "string assembled from constants and formatted fields "
+                  "(%s)" % other[:3])
+        return
+    seqs = {sh: strabs.unit_sequence(sh) for sh in shapes}
+    unit_forms = [sq for sq in seqs.values() if sq and sq[0] == (None, "P")
+                  and any(k in ("years", "months", "days", "hours",
+                                "minutes", "seconds") for k, _ in sq)]
+    if not unit_forms:
         rep.error("R27", "Duration.__str__: unit/designator list not found")
         return
-    writer = []
-    for prop, des in units:
-        writer.append((prop, des))
-        if prop == t_after:
-            writer.append((None, "T"))
+    longest = max(unit_forms, key=len)
+    stray = [sq for sq in unit_forms
+             if not strabs.is_subsequence(sq, longest)]
+    writer = [x for x in longest if x != (None, "P")]
+    rep.check(not stray, rule, ctx.fkey(f, None, "one-order"), f.loc(),
+              "every unit form Duration.__str__ can write is a selection, "
+              "in order, of %s" % writer,
+              "Duration.__str__ can write %s, which is not a selection in "
+              "order of its full form %s" % (stray[:2], writer), P)
+    week_shapes = [sq for sq in seqs.values()
+                   if any(k == "weeks" for k, _ in sq)]
+    minus_shapes = [sh for sh in shapes if sh.toks and sh.toks[0][0] == "L"
+                    and sh.toks[0][1].startswith("-")]
+    empty_shapes = [repr(sh) for sh in shapes
+                    if all(t[0] == "L" for t in sh.toks)]
     par = ctx.model.cls("DurationParser")
     regs = ctx.folder.need_class_const(par, "DURATION_REGEXES")
     rep.tables.add("DurationParser.DURATION_REGEXES")
@@ -555,8 +559,8 @@ def r27_dur_table(ctx):
     rep.check(bool(weeks) and weeks[0][0][1] == "W", rule,
               ctx.mkey("parsers", "DURATION_REGEXES:weeks"), "parsers.py",
               "PnW is read as weeks", "no `P<weeks>W` regex", P)
-    wk_ok = any(isinstance(n, ast.Return) and "_weeks" in U(n.value) and
-                "'W'" in U(n.value) for n in walk_no_nested(f.node))
+    wk_ok = bool(week_shapes) and all(
+        sq == [(None, "P"), ("weeks", "W")] for sq in week_shapes)
     rep.check(wk_ok, rule, ctx.fkey(f, None, "weeks-W"), f.loc(),
               "week form is written as nW", "Duration.__str__ does not "
               "write the week form with designator W", P)
@@ -565,11 +569,18 @@ def r27_dur_table(ctx):
     int_keys = None
     for n in walk_no_nested(pf.node):
         if isinstance(n, ast.If) and isinstance(n.test, ast.Compare) and \
-                isinstance(n.test.ops[0], ast.In) and isinstance(
-                    n.test.comparators[0], (ast.List, ast.Tuple)) and any(
-                        "int(" in U(x) for x in n.body):
-            int_keys = {e.value for e in n.test.comparators[0].elts
-                        if isinstance(e, ast.Constant)}
+                isinstance(n.test.ops[0], (ast.In, ast.NotIn)):
+            into = n.body if isinstance(n.test.ops[0], ast.In) else n.orelse
+            if not any("int(" in U(x) for x in into):
+                continue
+            try:
+                vals = ctx.folder.fold(n.test.comparators[0], pf.module,
+                                       pf.cls, {})
+            except NotConst:
+                continue
+            if isinstance(vals, (list, tuple, set, frozenset)) and all(
+                    isinstance(v, str) for v in vals):
+                int_keys = set(vals)
     digit_groups = set()
     for s in readers:
         for g, l, inner in s:
@@ -606,13 +617,8 @@ def r27_dur_table(ctx):
               "emits", "Duration.__str__ writes a decimal comma that "
               "DurationParser.parse does not convert back", P)
     # empty duration spelling
-    empty = None
-    for n in walk_no_nested(f.node):
-        if isinstance(n, ast.If) and U(n.test) in (
-                "not %s" % f.self_name,) and isinstance(
-                    n.body[0], ast.Return) and isinstance(
-                        n.body[0].value, ast.Constant):
-            empty = n.body[0].value.value
+    empties = sorted(set(empty_shapes) - {"P"}) or sorted(empty_shapes)
+    empty = empties[0] if len(empties) == 1 else None
     ok_empty = empty is not None and any(
         isinstance(r, Regex) and re.compile(r.pattern, r.flags).search(empty)
         for r in regs)
@@ -622,14 +628,52 @@ def r27_dur_table(ctx):
               "the empty duration is written as %r, which no duration regex "
               "matches" % empty, P)
     # leading minus
-    w_minus = any(isinstance(n, ast.Return) and U(n.value).startswith("'-' +")
-                  for n in walk_no_nested(f.node))
-    r_minus = any(isinstance(n, ast.If) and "startswith('-')" in U(n.test)
-                  for n in walk_no_nested(pf.node))
+    w_minus = bool(minus_shapes)
+    from ..flow import prefix_test
+    r_minus = False
+    for n in walk_no_nested(pf.node):
+        if isinstance(n, ast.If):
+            subj = prefix_test(pf.node, n.test, "-")
+            # ... and the sign is taken off the text that is matched
+            if subj and any(isinstance(x, ast.Assign) and U(
+                    x.targets[0]) == subj and U(x.value) == subj + "[1:]"
+                    for x in n.body):
+                r_minus = True
     rep.check(r_minus or not w_minus, rule, ctx.fkey(pf, None, "minus"),
               pf.loc(), "a leading '-' is consumed before matching",
               "Duration.__str__ writes a leading '-' the parser does not "
               "consume", P)
+    # the sign is taken out before any field is written: every return that
+    # formats a field lies behind the guard returning "-" + str(abs(self))
+    from ..flow import path_conds
+    minus_rets = [n for n in walk_no_nested(f.node)
+                  if isinstance(n, ast.Return) and n.value is not None and
+                  re.match(r"""\(?['"]-['"] \+|f['"]-""", U(n.value))]
+    if w_minus and len(minus_rets) == 1:
+        guard = None
+        for t, pol in path_conds(minus_rets[0]):
+            if pol and not ("not" in U(t) and U(t).endswith(f.self_name)):
+                guard = t
+                break
+        late = []
+        for n in walk_no_nested(f.node):
+            if isinstance(n, ast.Return) and n is not minus_rets[0] and \
+                    n.value is not None and not isinstance(
+                        n.value, ast.Constant):
+                if guard is None or not any(
+                        t is guard and not pol for t, pol in path_conds(n)):
+                    late.append(U(n.value)[:60])
+        rep.check(guard is not None and not late, rule,
+                  ctx.fkey(f, None, "sign-first"), f.loc(minus_rets[0]),
+                  "every return that formats a field is reached only after "
+                  "the all-negative case returned '-' + str(abs(self))",
+                  "Duration.__str__ formats fields (%s) on a path that does "
+                  "not pass the all-negative guard: a negative duration is "
+                  "written with the sign inside (P-5W), which the parser "
+                  "does not read" % late, P)
+    elif w_minus:
+        rep.error("R27", "Duration.__str__: the return writing the leading "
+                  "'-' was not identified")
     # date-time-like spelling: unit to unit
     mapping = {}
     rm_names = set()
@@ -638,6 +682,14 @@ def r27_dur_table(ctx):
             for k in n.keywords:
                 if k.arg is None and isinstance(k.value, ast.Name):
                     rm_names.add(k.value.id)
+    for n in walk_no_nested(pf.node):
+        if isinstance(n, ast.Assign) and isinstance(
+                n.targets[0], ast.Name) and n.targets[0].id in rm_names \
+                and isinstance(n.value, ast.Dict):
+            for k, v in zip(n.value.keys, n.value.values):
+                if isinstance(k, ast.Constant) and isinstance(
+                        v, ast.Attribute):
+                    mapping.setdefault(k.value, set()).add(v.attr)
     for n in walk_no_nested(pf.node):
         if isinstance(n, ast.Assign) and isinstance(
                 n.targets[0], ast.Subscript) and U(
